@@ -62,6 +62,13 @@ with tempfile.TemporaryDirectory() as d:
     c.close()
     for t in ths: t.join(20)
     res['alive_threads'] = sum(t.is_alive() for t in ths)
+    # a transfer that negotiated a long (legal) timeout ends; the listening port must answer the next request at once
+    c = Client(srv.server_address); c.rrq(b'f1', b'octet', [(b'timeout', b'200')]); c.run(); ok_long = c.finished; c.close()
+    time.sleep(0.05)
+    t0 = time.time()
+    c = Client(srv.server_address, 4.0); c.rrq(b'f2'); c.run()
+    res['after_long_timeout'] = dict(long_ok=ok_long, ok=(c.finished and c.buf == files['f2']), latency_ms=(time.time() - t0) * 1000)
+    c.close()
     srv.shutdown(); srv.server_close()
 print(json.dumps(res))
 '''
@@ -111,7 +118,7 @@ def boards_overlap(ctx):
                     for cid, b in enumerate(order, start=1):
                         name = rng.choice(names)
                         want = c02.spec_lookup(specs[b], name.split('/'))['data']
-                        bs = rng.choice([8, 64, 512])
+                        bs = rng.choice([8, 64, 512, 700, 1428, 1468])     # also sizes that do not divide the cluster size
                         sent, _ = sim.packet(0, cid, b'\0\1%x/%s\0octet\0blksize\0%d\0' % (serials[b], name.encode(), bs), now)
                         now += 7
                         if len(sent) != 1 or sent[0][1][:2] != b'\0\6':
@@ -256,6 +263,10 @@ def run(ctx, build):
             ctx.violation('tftpd.real/listener-latency',
                           f'fresh request while others stall: ok={res.get("fresh_ok")} latency={res.get("fresh_latency_ms")}ms',
                           dict(result=res))
+        al = res.get('after_long_timeout', {})
+        if not al.get('ok') or al.get('latency_ms', 1e9) > 3000:
+            ctx.violation('tftpd.real/listener-latency', f'after a transfer that negotiated timeout=200 ended, the next request was served '
+                          f'ok={al.get("ok")} after {al.get("latency_ms")} ms', dict(result=res))
         ctx.extra.setdefault('real_runs', []).append({k: v for k, v in res.items() if k != 'clients'})
 
 
